@@ -867,8 +867,13 @@ private:
         while (old_size < new_size && !this->my_size.compare_exchange_weak(old_size, new_size))
         {}
 
-        if (old_size < new_size) {
-            return internal_grow(old_size, new_size, args...);
+        // The call that grows the vector constructs its own elements first, but, like a call that finds the vector
+        // large enough, it must not return before the segments below new_size that belong to growth calls of other
+        // threads still in flight are allocated.
+        bool grown = old_size < new_size;
+        iterator result(*this, 0);
+        if (grown) {
+            result = internal_grow(old_size, new_size, args...);
         }
 
         size_type end_segment = this->segment_index_of(new_size - 1);
@@ -893,7 +898,7 @@ private:
         size_type cap = capacity();
         __TBB_ASSERT( cap >= new_size, nullptr);
     #endif
-        return iterator(*this, size());
+        return grown ? result : iterator(*this, size());
     }
 
     template <typename... Args>
